@@ -57,6 +57,7 @@ fn main() {
         "C15" => props::c15::run(&mut ctx),
         "C16" => props::c16::run(&mut ctx),
         "C17" => props::c17::run(&mut ctx),
+        "C18" => props::c18::run(&mut ctx),
         "C19" => props::c19::run(&mut ctx),
         x => { eprintln!("no harness for {x}"); std::process::exit(2); }
     }
